@@ -68,6 +68,22 @@ def oracle_inspect(res, cfg, o, rng):
                     res.fail('treespec constructor raised on the real children', case, rc)
                 elif rc[1] is not None and (rc[1] != sp or rc[1].paths() != sp.paths()):
                     res.fail('treespec constructor applied to the children gives a different treespec', case, f'{sp} vs {rc[1]}')
+        if not sp.is_leaf():
+            # the generic constructor on the real container holding the child treespecs
+            coll = attempt(lambda: sp.unflatten([None] * 0) if False else optree.tree_unflatten(sp.one_level(), ch))
+            if coll[0] == 0:
+                rc2 = attempt(lambda: optree.treespec_from_collection(coll[1], none_is_leaf=kw['none_is_leaf'], namespace=kw['namespace']))
+                if rc2[0] != 0:
+                    res.fail('treespec_from_collection raised on the real children', case, rc2)
+                elif rc2[1] != sp or rc2[1].paths() != sp.paths() or rc2[1].entries() != sp.entries() \
+                        or [a.path for a in rc2[1].accessors()] != [a.path for a in sp.accessors()]:
+                    res.fail('treespec_from_collection applied to the children gives a different treespec / paths / entries', case,
+                             f'{sp.paths()[:3]} vs {rc2[1].paths()[:3]}')
+            want_one = all(c.is_leaf() for c in ch)
+            if sp.is_one_level() != want_one or optree.treespec_is_one_level(sp) != want_one:
+                res.fail('is_one_level does not say whether all children are leaves', case)
+        elif sp.is_one_level():
+            res.fail('is_one_level is true for a leaf', case)
         if len(sp) != sp.num_leaves:
             res.fail('len(treespec) differs from num_leaves', case)
         if sp.transform() != sp or sp.transform(lambda s: s, lambda s: s) != sp:
